@@ -69,6 +69,17 @@ HAND = [
     "> q1\n\n> q2 separated\n",
     "```\nunclosed fence\n",
     "# javascript and github\n\nJavaScript GitHub\n",
+    # documents whose FIRST element is special to some rule (first-element / first-line state must be re-armed per file)
+    "<h1><img src='logo.png' alt='logo'></h1>\n\ntext\n",
+    "<h1 align=\"center\"><img src=\"/l.png\"></h1>\n",
+    "![logo](/l.png)\n\n# Title after image\n",
+    "<!-- comment first -->\n\n# Title after comment\n",
+    "---\ntitle: front\n---\n\n# Title after front matter\n",
+    "text\twith a tab\n",
+    "\n\n# Title after blank lines\n",
+    "[ref]: /only-a-definition\n",
+    "> quote first\n\n# then a heading\n",
+    "    indented code first\n\n# then a heading\n",
 ]
 N_CORPUS = 40
 # a second configuration with the per-file "first style seen" modes that the defaults do not use
